@@ -127,10 +127,11 @@ func snap(v reflect.Value, depth int) any {
 				if f.Name == "Type" || !f.IsExported() {
 					continue
 				}
-				is := v.Addr().MethodByName("Is" + f.Name)
+				is := v.MethodByName("Is" + f.Name) // value receiver in generated code
 				if !is.IsValid() {
-					// value receiver
-					is = v.MethodByName("Is" + f.Name)
+					pv := reflect.New(t)
+					pv.Elem().Set(v)
+					is = pv.MethodByName("Is" + f.Name)
 				}
 				if is.IsValid() && is.Type().NumIn() == 0 && is.Type().NumOut() == 1 {
 					if !is.Call(nil)[0].Bool() {
